@@ -15,6 +15,20 @@ pub struct Stage {
     pub nlines: u8,
     pub delay_ms: u8,
     pub exit_code: u8,
+    /// the stage writes 20 000 tagged lines to stderr in one burst (several pipe
+    /// capacities) instead of `nlines`
+    #[serde(default)]
+    pub bulk_err: bool,
+}
+
+impl Stage {
+    fn err_lines(&self) -> u32 {
+        if self.bulk_err {
+            20_000
+        } else {
+            self.nlines as u32
+        }
+    }
 }
 
 #[derive(Clone, Copy, Debug, PartialEq, Serialize, Deserialize)]
@@ -89,7 +103,7 @@ fn expected_output(n: usize, input: &[u8]) -> Vec<u8> {
 fn expected_err_lines(case: &PipeCase) -> Vec<String> {
     let mut v = vec![];
     for (i, s) in case.stages.iter().enumerate() {
-        for k in 0..s.nlines {
+        for k in 0..s.err_lines() {
             v.push(format!("E:T{}:{}", i + 1, k));
         }
     }
@@ -221,7 +235,7 @@ pub fn check_case(ctx: &Ctx, case: &PipeCase, rep: &mut CaseReport) -> CaseResul
         .iter()
         .enumerate()
         .map(|(i, s)| {
-            Some(Exec::cmd(&helper).arg("stage").arg(format!("T{}", i + 1)).arg(s.nlines.to_string()).arg(s.delay_ms.to_string()).arg(s.exit_code.to_string()).arg(&markers).arg(i.to_string()))
+            Some(Exec::cmd(&helper).arg("stage").arg(format!("T{}", i + 1)).arg(s.err_lines().to_string()).arg(s.delay_ms.to_string()).arg(s.exit_code.to_string()).arg(&markers).arg(i.to_string()))
         })
         .collect();
 
@@ -462,7 +476,7 @@ pub fn check_case(ctx: &Ctx, case: &PipeCase, rep: &mut CaseReport) -> CaseResul
 }
 
 pub fn case_strategy() -> impl Strategy<Value = PipeCase> {
-    let stage = (0u8..6, prop_oneof![3 => Just(0u8), 1 => 1u8..40], any::<u8>()).prop_map(|(nlines, delay_ms, exit_code)| Stage { nlines, delay_ms, exit_code });
+    let stage = (0u8..6, prop_oneof![3 => Just(0u8), 1 => 1u8..40], any::<u8>(), prop_oneof![9 => Just(false), 1 => Just(true)]).prop_map(|(nlines, delay_ms, exit_code, bulk_err)| Stage { nlines, delay_ms, exit_code, bulk_err });
     let len = prop_oneof![2 => Just(0u32), 3 => 1u32..5000, 2 => 60_000u32..70_000, 2 => 0u32..300_000];
     (
         prop::collection::vec(stage, 2..9),
